@@ -105,9 +105,9 @@ def execute(m, parts, trailer, cuts, inbuf):
 def main():
     out, shard, nshards, tier, seed = sys.argv[1], int(sys.argv[2]), int(sys.argv[3]), sys.argv[4], int(sys.argv[5])
     rnd = random.Random(seed * 1000 + shard)
-    maxlen = 5 if tier == 'quick' else 7
-    exh = 8 if tier == 'quick' else 11
-    exh_long = 0 if tier == 'quick' else 6
+    maxlen = 5 if tier == 'quick' else 6
+    exh = 8 if tier == 'quick' else 10
+    exh_long = 0 if tier == 'quick' else 0
     two_cuts = tier != 'quick'
     nrandom = 600 if tier == 'quick' else 12000
     f = open(out, 'w')
@@ -137,7 +137,7 @@ def main():
             for parts in part_splits(m, rnd, 4):
                 for trailer in TRAILERS:
                     wl = len(b''.join(DataSender(*parts))) + len(trailer)
-                    for cuts in segmentations(wl, rnd, exh if L <= 3 else exh_long, 3, two_cuts):
+                    for cuts in segmentations(wl, rnd, exh if L <= 3 else exh_long, 3, two_cuts and L <= 5):
                         for inbuf in ((False, True) if (len(cuts) == 1) else (rnd.random() < 0.2,)):
                             ev = execute(m, parts, trailer, cuts, inbuf)
                             cls = 'short' + ('-empty' if not m else '') + ('-trailer' if trailer else '')
